@@ -223,6 +223,13 @@ Theorem C02_superposition_is_elementwise :
 Proof. exact: nth_vadd. Qed.
 Print Assumptions C02_superposition_is_elementwise.
 
+From NSpa Require Import Model.Types Model.Algebra.
+Theorem C02_superposition_accepts_exactly_equal_lengths :
+  forall (R : comRingType) (a b : seq R),
+    alg_superpose a b = if size a == size b then Ok (vadd a b) else Err ValueError.
+Proof. by []. Qed.
+Print Assumptions C02_superposition_accepts_exactly_equal_lengths.
+
 (* ---------------- HRR through the Fourier domain (how HrrAlgebra.bind computes it) ------- *)
 (* C: any commutative ring with an element w, w^d = 1, into which R embeds
    (the complex numbers with w = exp(-2 pi i / d)) *)
